@@ -317,9 +317,9 @@ Definition handle_disconnect (c : cfg) (eio : str) (pns : option str) (reason : 
   | None => ret tt
   | Some sid =>
       r <~ with_mg (fun m => pre_disconnect m sid ns) ;; _ <~ lift r ;;
-      _ <~ trigger_event c (PStr (s2l "disconnect")) ns
-             [PStr sid; if truthy reason then reason else r_client_disconnect] ;;
-      set_mg (fun m => mgr_disconnect m sid ns)
+      finallyM (_ <~ trigger_event c (PStr (s2l "disconnect")) ns
+                      [PStr sid; if truthy reason then reason else r_client_disconnect] ;; ret tt)
+               (set_mg (fun m => mgr_disconnect m sid ns))
   end.
 
 (* data[0] and data[1:] on an arbitrary JSON value *)
@@ -368,7 +368,6 @@ Definition handle_ack (c : cfg) (eio : str) (pns : option str) (id : option Z) (
   t <~ with_mg (fun m => trigger_callback m osid id) ;;
   match t with
   | CbNone => ret tt
-  | CbCounter => raise TypeError
   | CbRef cb => args <~ lift (star_args data) ;; tell (CbCall cb args)
   end.
 
@@ -409,8 +408,10 @@ Definition handle_eio_message (c : cfg) (loads : str -> Res pv) (eio : str) (pay
 (* _handle_eio_disconnect, then engine.io drops the socket *)
 Definition handle_eio_disconnect (c : cfg) (eio : str) (reason : pv) : SM unit :=
   s <~ getS ;;
-  forM (get_namespaces (mg s)) (fun n => handle_disconnect c eio (Some n) reason) ;;;
-  modify (fun s => mkSrv (mg s) (adel str_eqb (environ s) eio) (binpkt s) (sessions s) (live s) (fresh s)).
+  exc <~ forM_keep (get_namespaces (mg s)) (fun n => handle_disconnect c eio (Some n) reason) None ;;
+  modify (fun s => mkSrv (mg s) (adel str_eqb (environ s) eio) (adel str_eqb (binpkt s) eio)
+                         (sessions s) (live s) (fresh s)) ;;;
+  match exc with Some e => raise e | None => ret tt end.
 
 (* server.disconnect(sid, namespace) *)
 Definition api_disconnect (c : cfg) (sid : str) (pns : option str) : SM unit :=
@@ -419,8 +420,8 @@ Definition api_disconnect (c : cfg) (sid : str) (pns : option str) : SM unit :=
   if negb (is_connected (mg s) (Some sid) ns) then ret tt else
   r <~ with_mg (fun m => pre_disconnect m sid ns) ;; eio <~ lift r ;;
   send_packet c eio DISCONNECT PNone ns None ;;;
-  _ <~ trigger_event c (PStr (s2l "disconnect")) ns [PStr sid; r_server_disconnect] ;;
-  set_mg (fun m => mgr_disconnect m sid ns).
+  finallyM (_ <~ trigger_event c (PStr (s2l "disconnect")) ns [PStr sid; r_server_disconnect] ;; ret tt)
+           (set_mg (fun m => mgr_disconnect m sid ns)).
 
 (* ---- operations of a history ---- *)
 Definition jtable := list (str * Res pv).
